@@ -184,13 +184,19 @@ func (a *Avail) keyOf(v ssa.Value) (memKey, bool) {
 	case *ssa.UnOp:
 		if x.Op == token.MUL {
 			b, ok := a.keyOf(x.X)
-			if !ok || b.depth > 6 {
-				return memKey{}, false
+			if ok && b.depth <= 6 {
+				return a.loadKey(b), true
 			}
-			return a.loadKey(b), true
 		}
 	case *ssa.ChangeType:
 		return a.keyOf(x.X)
+	}
+	// any other pointer-typed SSA value (a loaded element pointer, a call result, a φ) is an immutable root
+	if _, isPtr := v.Type().Underlying().(*types.Pointer); isPtr {
+		switch v.(type) {
+		case *ssa.UnOp, *ssa.Call, *ssa.Phi, *ssa.Extract, *ssa.Lookup, *ssa.TypeAssert:
+			return memKey{s: fmt.Sprintf("V:%p", v), root: 'V'}, true
+		}
 	}
 	return memKey{}, false
 }
